@@ -679,6 +679,15 @@ __offs(struct zif_s z[static 1U], int32_t t)
 	return (z->cache = __find_zrng(z, t, min, max)).offs;
 }
 
+static inline __attribute__((const, pure)) int32_t
+__t32(time_t t)
+{
+/* the transitions we read are 32 bits wide, beyond them the first or the
+ * last offset stays in force, don't let T wrap around */
+	return t > (time_t)INT32_MAX ? INT32_MAX
+		: t < (time_t)INT32_MIN ? INT32_MIN : (int32_t)t;
+}
+
 DEFUN time_t
 zif_utc_time(zif_t z, time_t t)
 {
@@ -702,10 +711,11 @@ zif_utc_time(zif_t z, time_t t)
 		return t;
 	}
 
-	while ((xj = __offs(AS_MUT_ZIF(z), t - xi)) != xi && xi != old) {
+	while ((xj = __offs(AS_MUT_ZIF(z), __t32(t - xi))) != xi && xi != old) {
 		old = xi = xj;
 	}
-	if (UNLIKELY(xj != xi && __offs(AS_MUT_ZIF(z), t - xj) != xj)) {
+	if (UNLIKELY(xj != xi &&
+		     __offs(AS_MUT_ZIF(z), __t32(t - xj)) != xj)) {
 		/* the second estimate is no fixed point either, T is a
 		 * wall-clock time that is skipped and the two estimates are
 		 * the offsets on either side of the gap; go with the one from
@@ -724,7 +734,7 @@ zif_local_time(zif_t z, time_t t)
 	if (UNLIKELY(z == NULL)) {
 		return t;
 	}
-	return t + __offs(AS_MUT_ZIF(z), t);
+	return t + __offs(AS_MUT_ZIF(z), __t32(t));
 }
 
 #endif	/* INCLUDED_tzraw_c_ */
